@@ -125,8 +125,46 @@ def scenarioVerdict (args : List Sexp) : Verdict :=
   | [.atom name, _, .list (.atom "violated" :: why)] => .oracle s!"{name}: {why}"
   | _ => .oracle s!"scenario outcome {args}"
 
+def parseFwOps : List Sexp → Option (List FwOp)
+  | [] => some []
+  | .list [.atom "h"] :: r => (parseFwOps r).map (FwOp.header :: ·)
+  | .list [.atom "b", n, d] :: r => do
+    let n ← asNat n
+    let d ← asBytes d
+    let rest ← parseFwOps r
+    pure (.block n d :: rest)
+  | _ => none
+
+/-- `(fwd codec k acc (ops…) (res failedCall|none writesAccepted wraps))`: the file writer driven directly. The sync marker
+is random and the compressors are external, so the model is compared on WHICH call fails and how many writes were
+accepted whole before it (both independent of the bytes written). -/
+def fwdVerdict (args : List Sexp) : Verdict :=
+  match args with
+  | [.atom codec, k, acc, .list (.atom "ops" :: ops), impl] =>
+    match asNat k, asNat acc, parseFwOps ops with
+    | some k, some acc, some ops =>
+      let cfg : EncCfg := { blockSize := 0, compress := id, sync := [0], header := [0] }
+      let (w, failed) := fwRunFrom cfg ops 0 { failAt := k, accept := acc }
+      match impl with
+      | .list (.atom "panic" :: why) => .oracle s!"a FileWriter call panicked when write {k} failed: {why}"
+      | .list [.atom "res", f, n, .atom wraps] =>
+        match parseFailed f, asNat n with
+        | some implFailed, some implN =>
+          if failed.isSome && implFailed.isNone then
+            .oracle s!"write {k} failed and every call returned nil (the model reports call {failed.getD 0})"
+          else if implFailed.isSome && wraps != "true" then
+            .oracle s!"write {k} failed and call {implFailed.getD 0} returned an error that does not wrap the writer's error"
+          else if implFailed != failed then .diff s!"model: failing call {failed}, implementation {implFailed}"
+          else if implN != w.log.length then .diff s!"model: {w.log.length} writes accepted whole, implementation {implN}"
+          else .ok s!"fwd/{codec}/{if failed.isSome then "fails" else "no-fault-reached"}"
+        | _, _ => .bad "fwd outcome"
+      | _ => .bad "fwd outcome"
+    | _, _, _ => .bad "parse"
+  | _ => .bad "parse"
+
 def c16 (op : String) (args : List Sexp) : Verdict :=
   if op == "enc-scenario" then scenarioVerdict args else
+  if op == "fwd" then fwdVerdict args else
   if op != "enc" then .bad s!"unknown op {op}" else
   match args.getLast? with
   | some (.list (.atom "panic" :: why)) => .oracle s!"an Encode / Flush call panicked: {why}"
